@@ -17,3 +17,31 @@ Theorem method_resolution_unchanged : gen_methods = pinned_methods /\ gen_method
 Proof. split; vm_compute; reflexivity. Qed.
 Theorem lineax_tags_unchanged : gen_tags = pinned_tags /\ gen_tag_names = pinned_tag_names.
 Proof. split; vm_compute; reflexivity. Qed.
+
+(* The generic guards every binary rule goes through: the body of AbstractBinaryRule.check, translated statement by
+   statement on every run (gen_generic_check), is the model's guard_ok - for every guard triple and all operands.
+   `fires` (Model/Algebra.v) consults a rule exactly when guard_ok holds, so the model uses these guards and no
+   others; a guard dropped from / added to / weakened in check() makes this proof fail. *)
+Theorem generic_check_as_modelled :
+  forall (K : Type) (keqb : K -> K -> bool) (g : guard) (l r : op K),
+    @gen_generic_check K keqb g l r = @guard_ok K keqb g l r.
+Proof.
+  intros K keqb [a gl gr] l r.
+  unfold gen_generic_check, guard_ok, py_isinstance, operator_is, attr_set; simpl.
+  rewrite !attr_is_transpose.
+  set (tl := is_exactly_transpose gl); set (tr := is_exactly_transpose gr); clearbody tl tr.
+  destruct a as [ca|], gl as [cl|], gr as [cr|], tl, tr; simpl;
+    repeat (match goal with
+            | |- context [is_a ?e ?c] => destruct (is_a e c)
+            | |- context [wrapped ?e] => destruct (wrapped e)
+            | |- context [same ?k ?x ?y] => destruct (same k x y)
+            end; simpl);
+    reflexivity.
+Qed.
+Print Assumptions generic_check_as_modelled.
+(* every registered rule resolves check() to the generic one, except InverseBinaryRule whose override (calling the
+   generic check, then the identity test modelled in apply_rule RInverse) is pinned by its normalised source *)
+Theorem rule_check_resolution_as_modelled : check_owners_as_modelled gen_check_owners = true.
+Proof. vm_compute. reflexivity. Qed.
+Theorem inverse_rule_check_unchanged : gen_inverse_check_src = pinned_inverse_check_src.
+Proof. vm_compute. reflexivity. Qed.
